@@ -129,9 +129,7 @@ example : Redb.txOutFromBytes ⟨3, [5,0,0,0,0,0,0,0, 1, 0x51]⟩ =
     .ok ⟨⟨3, [5,0,0,0,0,0,0,0, 1, 0x51]⟩, 5, ⟨⟨11, [1, 0x51]⟩, 1⟩⟩ := by decide
 example : Redb.txFromBytes ⟨5, Acc.exSegwitTx⟩ = .ok ⟨⟨5, Acc.exSegwitTx⟩, some 53⟩ := by decide
 example : lexCmp [1, 2] [1, 2, 0] = .lt := by decide
-example : lexCmp [1, 3] [1, 2, 0] = .gt := by decide
-
-/-! ## L1 corollaries (generated by tools/genlift.py) -/
+example : lexCmp [1, 3] [1, 2, 0] = .gt := by decide/-! ## L1 corollaries (generated by tools/genlift.py) -/
 section L1
 open BS.Ref BS.Lift
 
